@@ -16,8 +16,9 @@ import z3
 
 from pyvc import npspec
 from pyvc.core import cur, forall_range, OutOfSubset, program_exception
-from pyvc.engine import Contract, Loop, NS, Stub
+from pyvc.engine import Contract, Loop, NS, Stub, make_object
 from pyvc.values import SInt, SReal, SBool, SKey, Sym, lift, term as T
+from pyvc.sarray import SArr, Cell
 
 I, R, B = z3.IntSort(), z3.RealSort(), z3.BoolSort()
 Vec = z3.DeclareSort('Vec')
@@ -27,6 +28,8 @@ BACK = z3.Function('BACK', Vec, Vec)
 LOGJ = z3.Function('LOGJ', Vec, R)
 MVN = z3.Function('MVN', Vec, I, Vec)
 EXP = npspec._exp
+ZEROV = z3.Const('zero_vector', Vec)
+LOGPRIOR = z3.Function('LOGPRIOR', Vec, R)
 INF = npspec.INF
 
 
@@ -38,6 +41,12 @@ def ratio_spec(bounded, p_new, p_cur, post_new, post_cur):
     """the property's acceptance ratio (independent of the code)"""
     jac = (LOGJ(FWD(p_new)) - LOGJ(FWD(p_cur))) if bounded else z3.RealVal(0)
     return EXP(clip700(jac + post_new - post_cur))
+
+
+def arr1(t):
+    """a shape-(1,) float array holding the real term t: what ModelPrior.logpdf returns for a (1, d) point and what the
+    standard / unbiased likelihoods return (np.array([loglik])) - the callees' real result shapes (C20 CAS contracts, C08)"""
+    return SArr(Cell(lambda i: t, (z3.IntVal(1),), 'real'))
 
 
 def finite(t):
@@ -66,6 +75,12 @@ class ZArr(Sym):
         self.a = z3.Const(name, z3.ArraySort(I, sort))
         self.t = None
 
+    @classmethod
+    def zeros(cls, name, sort, n):
+        z = cls(name, sort, n)
+        z.a = z3.K(I, ZEROV if sort == Vec else z3.RealVal(0))
+        return z
+
     def _check(self, i):
         cur().oblige('call-pre[index into state[%s] within 0..len-1]' % self.name.split('!')[0], z3.And(i >= 0, i < self.n))
 
@@ -83,6 +98,11 @@ class ZArr(Sym):
                 raise OutOfSubset('row assignment of a value of another kind')
             t = v.t
         else:
+            if isinstance(v, SArr):
+                # numpy 2: a[i] = <array with ndim >= 1> raises even for one element; a 0-d array is converted (sanity-tested)
+                if v.ndim > 0:
+                    raise program_exception(ValueError('setting an array element with a sequence.'))
+                v = SReal(npspec._to_real(v.at(), v.kind))
             t = npspec._real(v)
         self.a = z3.Store(self.a, i, t)
 
@@ -124,9 +144,56 @@ class Bounds:
     _vc_is_none = None
 
 
-class Sampler:
-    """stub `self`: only the attributes that the functions under contract may touch exist; anything else
-    (batches, model, pool, ...) raises AttributeError -> undecided, which is how 'nothing is submitted' fails closed"""
+class UsedBeforeOpt(SKey):
+    """an attribute that the tree's BSL.__init__ sets to None and that this module does not model (an edit introduced it: a
+    cached transformed state, a memo).  The sampler object may have been USED BEFORE (an earlier sample() call), so it is
+    None or an arbitrary parameter vector; reading it taints the path (pyvc/README: over-approximated state) - a refutation
+    is a violation only if a one-object history of the bounded stand-in (several sample() calls) fails natively."""
+    __slots__ = ('name', '_term')
+
+    def __init__(self, name):
+        self.name, self._term = name, None
+
+    def _taint(self):
+        cur().taint('arbitrary content of self.%s left by earlier sample() calls' % self.name)
+
+    @property
+    def t(self):
+        self._taint()
+        if self._term is None:
+            self._term = z3.Const('used_before_' + self.name, Vec)
+        return self._term
+
+    def _vc_is_none(self):
+        self._taint()
+        return SBool(z3.Bool('used_before_%s_is_none' % self.name))
+
+
+class UsedBeforeOpaque:
+    """any other attribute of BSL.__init__ without a model here: every use leaves the subset (fail closed)"""
+
+    def __init__(self, name):
+        self.__dict__['_name'] = name
+
+    def _no(self, *a, **kw):
+        cur().taint('content of self.%s is not modelled' % self._name)
+        raise OutOfSubset('use of self.%s, an attribute of BSL.__init__ that the C20 contracts do not model' % self._name)
+    __getattr__ = __call__ = __getitem__ = __len__ = __iter__ = __bool__ = __add__ = __radd__ = __sub__ = __eq__ = _no
+    __hash__ = None
+
+
+def init_attributes(vc):
+    """[(name, rhs AST)] of the `self.name = ...` statements of BSL.__init__ in the tree under analysis"""
+    import ast
+    from pyvc import instrument
+    loc = instrument.locate('elfi/methods/inference/bsl.py::BSL.__init__', getattr(vc, 'repo', None))
+    out = []
+    for n in ast.walk(loc.node):
+        if isinstance(n, ast.Assign):
+            for t in n.targets:
+                if isinstance(t, ast.Attribute) and isinstance(t.value, ast.Name) and t.value.id == 'self':
+                    out.append((t.attr, n.value))
+    return out
 
 
 def make_sampler(vc, s, bounded, misspec, n_name='n_samples'):
@@ -147,7 +214,14 @@ def make_sampler(vc, s, bounded, misspec, n_name='n_samples'):
     obj = StateDict()
     obj['round'] = SInt(z3.Int('objective_round'))
     obj['n_batches'] = SInt(z3.Int('objective_n_batches'))
-    me = Sampler()
+    # stub `self` (engine.make_object: members the contract does not give it - helper methods, class constants an edit adds -
+    # are resolved from the REAL class in the tree).  Only what the functions under contract may touch exists: batches, model,
+    # pool ... raise AttributeError -> undecided, which is how 'nothing is submitted' fails closed.
+    me = make_object('BSLStub')
+    import ast
+    for name_, rhs in init_attributes(vc):
+        setattr(me, name_, UsedBeforeOpt(name_) if (isinstance(rhs, ast.Constant) and rhs.value is None) else UsedBeforeOpaque(name_))
+    me.param_names = None
     me.state, me.objective = st, obj
     me.is_misspec = misspec
     me.logit_transform_bound = Bounds() if bounded else None
@@ -220,6 +294,14 @@ class RandomStateSpec(Sym):
         return SKey(r)
 
 
+class Point(SKey):
+    """a parameter point together with the rank of the array that holds it (ModelPrior.logpdf's result shape depends on it)"""
+    __slots__ = ('ndim',)
+
+    def __init__(self, t, ndim):
+        self.t, self.ndim = t, ndim
+
+
 def np_module(s):
     """numpy as the sampler code sees it: the engine's table plus the opaque library values of this abstraction"""
     def isfinite(x):
@@ -246,7 +328,21 @@ def np_module(s):
         if isinstance(x, Opaque):
             return Opaque(z3.Function('np_cov', Opq, Opq)(x.t))
         raise OutOfSubset('np.cov')
-    return npspec.module(extra=dict(isfinite=isfinite, all=all_, atleast_2d=atleast_2d, mean=mean, cov=cov))
+    def array(x, *a, **kw):
+        if isinstance(x, Point) and not a and not kw:
+            return x
+        return npspec.array(x, *a, **kw)
+
+    def zeros(shape, dtype=None):
+        if dtype is None and isinstance(shape, tuple) and len(shape) == 2:
+            return ZArr.zeros('new_rows', Vec, T(shape[0]))          # rows of a fresh (n, p) array: zero vectors
+        if dtype is None and not isinstance(shape, tuple):
+            return ZArr.zeros('new_reals', R, T(shape))
+        raise OutOfSubset('np.zeros of this shape')
+    extra = dict(isfinite=isfinite, all=all_, atleast_2d=atleast_2d, mean=mean, cov=cov, array=array)
+    if s is not None and getattr(s, 'fresh_state_arrays', False):
+        extra['zeros'] = zeros
+    return npspec.module(extra=extra)
 
 
 # =============================================================================================== _get_mh_ratio
@@ -349,7 +445,8 @@ class ProcessSimulated(Contract):
                 ok = ok and not kw
             vc_.oblige('call-pre[likelihood(self.simulated, self.observed%s)]' % (', gamma=current gamma' if self.misspec else ''), z3.BoolVal(bool(ok)))
             s.lik_calls.append(1)
-            return SReal(s.ll)
+            # gaussian_syn_likelihood / ..._ghurye_olkin return np.array([loglik]); syn_likelihood_misspec returns loglik itself
+            return SReal(s.ll) if self.misspec else arr1(s.ll)
         me.likelihood = Stub('likelihood', likelihood, checked_by='C20 likelihood contracts (CAS)')
         if self.misspec:
             s.gamma_at_entry = me.gamma_sampler_state['gamma']
@@ -439,7 +536,7 @@ class InitRound(Contract):
                 vc_.oblige('call-pre[prior.logpdf is evaluated at the proposal]', z3.BoolVal(bool(s.props) and isinstance(x, SKey) and x.t is s.props[-1]))
                 lp = vc_.fresh('logprior_of_proposal%d' % len(s.lps), R)
                 s.lps.append(lp)
-                return SReal(lp)
+                return arr1(lp)         # ModelPrior.logpdf of a 2-D (1, d) point: one value per row
         me.prior = Prior()
 
         def set_objective(vc_, rounds):
@@ -525,7 +622,87 @@ class InitRound(Contract):
         return out
 
 
+# =============================================================================================== _init_state
+class InitState(Contract):
+    """start of the chain (caller side of the chain state: the anchored functions assume row 0 holds the start point)"""
+    target = 'elfi/methods/inference/bsl.py::BSL._init_state'
+    prop = 'C20'
+    fin = 4
+
+    def __init__(self, given, dim):
+        self.given, self.dim = given, dim
+        self.label = ('params0 given' if given else 'params0=None') + ',p=%d' % dim
+
+    def env(self, vc):
+        s = vc._s
+
+        def batch_to_arr2d(batch, names):
+            vc.oblige('call-pre[batch_to_arr2d gets the generated batch and the parameter names]',
+                      z3.BoolVal(batch is s.batch and list(names) == s.me.param_names))
+            return Point(z3.Const('generated_start', Vec), 2)
+        return {'np': np_module(s), 'batch_to_arr2d': batch_to_arr2d}
+
+    def setup(self, vc):
+        s = NS()
+        s.fresh_state_arrays = True
+        me = make_sampler(vc, s, False, False)
+        me.param_names = ['p%d' % i for i in range(self.dim)]
+        me.seed = SInt(z3.Int('seed'))
+        s.batch = Opaque(z3.Const('generated_batch', Opq))
+        s.p0 = Point(z3.Const('params0', Vec), 1)
+        s.n_arg = z3.Int('n_samples_arg')
+        vc.fin_bounds.append(s.n_arg)
+        dim = self.dim
+
+        class Model:
+            parameter_names = me.param_names
+
+            def generate(self_, n, names, seed=None):
+                vc.oblige('call-pre[model.generate(1, parameter names, seed=self.seed)]',
+                          z3.BoolVal(n == 1 and list(names) == me.param_names and seed is me.seed))
+                return s.batch
+        me.model = Model()
+
+        class Prior:
+            def logpdf(self_, x):
+                if not isinstance(x, Point):
+                    raise OutOfSubset('prior.logpdf of a non-point')
+                v = LOGPRIOR(x.t)
+                # ModelPrior._evaluate_pdf: one value per row, unwrapped only for a 0-d point or a 1-D point of a multi-parameter prior
+                return SReal(v) if (x.ndim == 0 or (x.ndim == 1 and dim > 1)) else arr1(v)
+        me.prior = Prior()
+
+        def base_init_state():
+            for k in ('n_batches', 'n_sim', 'round', 'n_sim_round'):
+                me.state[k] = SInt(z3.IntVal(0))
+        me._vc_super = lambda: make_object('ModelBasedStub', methods=dict(_init_state=lambda self_: base_init_state()))
+        return s, (me, SInt(s.n_arg)), dict(params0=(s.p0 if self.given else None))
+
+    def requires(self, s):
+        return [s.n_arg >= 1]
+
+    def _start(self, s):
+        return s.p0.t if self.given else z3.Const('generated_start', Vec)
+
+    def raises(self, s):
+        return {'ValueError': z3.And(z3.BoolVal(self.given), z3.Not(finite(LOGPRIOR(s.p0.t))))}
+
+    def iff_raises(self, s):
+        return [('a given start point has a finite log-prior', z3.Or(z3.BoolVal(not self.given), finite(LOGPRIOR(s.p0.t))))]
+
+    def ensures(self, s, result):
+        st = s.me.state
+        P, LP, LQ = st['params'], st['logprior'], st['logposterior']
+        ok = all(isinstance(x, ZArr) for x in (P, LP, LQ))
+        if not ok:
+            return [('chain arrays are fresh arrays', z3.BoolVal(False))]
+        return [('row 0 holds the start point and its log-prior', z3.And(P.at(0) == self._start(s), LP.at(0) == LOGPRIOR(self._start(s)))),
+                ('the chain has the requested length', z3.And(P.n == s.n_arg, LP.n == s.n_arg, LQ.n == s.n_arg)),
+                ('counters start at zero', z3.And(T(st['n_samples']) == 0, T(s.me.num_accepted) == 0, T(st['round']) == 0, T(st['n_sim_round']) == 0))]
+
+
 def contracts():
     return [GetMhRatio(True), GetMhRatio(False), PropagateState(True), PropagateState(False),
             ProcessSimulated(True, False), ProcessSimulated(False, False), ProcessSimulated(True, True),
-            InitRound(False), InitRound(True)]
+            InitRound(False), InitRound(True),
+            InitState(True, 2), InitState(True, 1), InitState(False, 2), InitState(False, 1)]
